@@ -2,7 +2,8 @@
 (* C01 S->I cases: a member of the voice family, 0..3 labels, a condition; expected F, duration set,
    voicing mask.  Also checks the composition laws on every enumerated case. *)
 EXTENDS Pipeline, Json
-CONSTANTS NStates, Shapes, Salts, Stages, WinSets, MaxLabels, LabelIdx, CondIdx
+CONSTANTS NStates, Shapes, Salts, Stages, WinSets, MaxLabels, LabelIdx, CondIdx,
+          MaxUttStates      \* bound on labels x states per utterance (the set-valued duration results are enumerated explicitly)
 VARIABLES f, labs, ci
 vars == <<f, labs, ci>>
 F0 == [nstate |-> 0, nstream |-> 0, winset |-> 1, stage |-> 0, gv |-> FALSE, shape |-> 0, quoted |-> FALSE, salt |-> 0]
@@ -23,7 +24,7 @@ Next == \/ f = F0 /\ \E ns \in NStates, sh \in Shapes, sa \in Salts, sg \in Stag
                       f' = [F0 EXCEPT !.nstate = ns, !.shape = sh, !.salt = sa, !.stage = sg] /\ UNCHANGED <<labs, ci>>
         \/ f # F0 /\ f.nstream = 0 /\ \E n \in {2, 3}, w \in WinSets, g \in BOOLEAN, qd \in BOOLEAN :
                       f' = [f EXCEPT !.nstream = n, !.winset = w, !.gv = g, !.quoted = qd] /\ UNCHANGED <<labs, ci>>
-        \/ f.nstream # 0 /\ ci = 0 /\ \E n \in 0..MaxLabels : \E ls \in [1..n -> LabelIdx] : \E k \in CondIdx :
+        \/ f.nstream # 0 /\ ci = 0 /\ \E n \in {n \in 0..MaxLabels : n * f.nstate <= MaxUttStates} : \E ls \in [1..n -> LabelIdx] : \E k \in CondIdx :
                       labs' = ls /\ ci' = k /\ UNCHANGED f
 Spec == Init /\ [][Next]_vars
 Ends(c, n) == [i \in 1..n |-> IF i <= Len(c.ends) THEN c.ends[i] ELSE -4]
